@@ -56,6 +56,13 @@ static void api_case(const Pattern &p, hx::Rng &rng, const Cfg &cfg) { hx::CaseO
     { SCrs B=A; for (auto &v : B.val) v=v*scalar(2); Vec gb{hx::junk("b_lo")}; gb.insert(gb.end(),B.val.begin(),B.val.end()); gb.push_back(hx::junk("b_hi")); Vec xa=x0, xb=x0, xc; hx::cuts(true); capi::conv_info ca=capi::amgcl_solver_solve_mtx(s0,P0,C0,gb.data()+1,f.data(),xa.data()); capi::conv_info cb; capi::amgcl_solver_solve_mtx_f(s1,P1,C1,gb.data()+1,f.data(),xb.data(),&cb);
       NV Xc=hx::to_numa(x0); size_t itc; scalar resc; std::tie(itc,resc)=cxx(std::tie(n,B.ptr,B.col,B.val),F,Xc); hx::cuts(false); xc=hx::to_vec(Xc);
       hx::require("solve with a replacement matrix: C API (0-based) = C++", same_vec(xa,xc) && (size_t)ca.iterations==itc && hx::same_handle(ca.residual,resc)); hx::require("solve with a replacement matrix: 1-based = 0-based", same_vec(xb,xa) && cb.iterations==ca.iterations && hx::same_handle(cb.residual,ca.residual)); bool cl=true; for (auto &v : xa) cl=cl&&hx::independent_of(v,"junk_"); for (auto &v : xb) cl=cl&&hx::independent_of(v,"junk_"); hx::require("replacement matrix: nothing outside the arrays is read", cl); }
+    // the same entry points on EXACT-SIZE heap arrays (no guard elements): the harness is built with AddressSanitizer, so a read of ptr[n+1], col[nnz] or val[nnz]
+    // that never influences the result (e.g. a copy of one element too many) still terminates the run and is reported as a violation
+    { std::vector<int> ep0(ptr0), ec0(col0), ep1(ptr1), ec1(col1); Vec ev(A.val), eb(A.val); for (auto &v : eb) v=v*scalar(2); ep0.shrink_to_fit(); ec0.shrink_to_fit(); ep1.shrink_to_fit(); ec1.shrink_to_fit(); ev.shrink_to_fit(); eb.shrink_to_fit(); hx::cuts(true);
+      capi::amgclHandle t0=capi::amgcl_solver_create(n,ep0.data(),ec0.data(),ev.data(),prm), t1=capi::amgcl_solver_create_f(n,ep1.data(),ec1.data(),ev.data(),prm); Vec xa=x0, xb=x0; capi::conv_info cb;
+      capi::amgcl_solver_solve_mtx(t0,ep0.data(),ec0.data(),eb.data(),f.data(),xa.data()); capi::amgcl_solver_solve_mtx_f(t1,ep1.data(),ec1.data(),eb.data(),f.data(),xb.data(),&cb); hx::cuts(false);
+      capi::amgclHandle eprm=capi::amgcl_params_create(); capi::amgcl_params_seti(eprm,"coarse_enough",2); capi::amgclHandle q0=capi::amgcl_precond_create(n,ep0.data(),ec0.data(),ev.data(),eprm), q1=capi::amgcl_precond_create_f(n,ep1.data(),ec1.data(),ev.data(),eprm); capi::amgcl_params_destroy(eprm);
+      hx::require("exact-size arrays: 1-based = 0-based with a replacement matrix", same_vec(xa,xb)); capi::amgcl_solver_destroy(t0); capi::amgcl_solver_destroy(t1); capi::amgcl_precond_destroy(q0); capi::amgcl_precond_destroy(q1); }
     // preconditioner handles
     { capi::amgclHandle pprm=capi::amgcl_params_create(); capi::amgcl_params_sets(pprm,"coarsening.type",cfg.coarsening.c_str()); capi::amgcl_params_sets(pprm,"relax.type",cfg.relax.c_str()); capi::amgcl_params_seti(pprm,"coarse_enough",2); capi::amgcl_params_setf(pprm,"coarsening.aggr.eps_strong",0.125f);
       // non-default cycle parameters must reach the stand-alone preconditioner handle too
